@@ -45,7 +45,7 @@ Theorem add_aligned_u16_appends s x :
   Inv s -> bytes_ok (s_buf s) -> s_off s mod 8 = 0 -> s_off s / 8 + 2 <= blen (s_buf s) ->
   exists s', add_aligned_u16 s x = Some s' /\ appended s s' 16 (N.testbit x).
 Proof.
-  intros HI Hok Hal Hcap. unfold add_aligned_u16.
+  intros HI Hok Hal Hcap. unfold add_aligned_u16. rewrite (ensure_writable_true s _ _ Hcap). cbn [negb].
   destruct (add_aligned_u8_appends s (N.land x 255) HI Hok (land255_le x) Hal ltac:(lia)) as (s1 & E1 & A1).
   rewrite E1. cbn [bind]. pose proof A1 as (Ho1 & Hl1 & Hok1 & _).
   destruct (add_aligned_u8_appends s1 (N.land (N.shiftr x 8) 255) (appended_inv _ _ _ _ A1) Hok1 (land255_le _)
@@ -61,7 +61,7 @@ Theorem add_aligned_u32_appends s x :
   Inv s -> bytes_ok (s_buf s) -> s_off s mod 8 = 0 -> s_off s / 8 + 4 <= blen (s_buf s) ->
   exists s', add_aligned_u32 s x = Some s' /\ appended s s' 32 (N.testbit x).
 Proof.
-  intros HI Hok Hal Hcap. unfold add_aligned_u32.
+  intros HI Hok Hal Hcap. unfold add_aligned_u32. rewrite (ensure_writable_true s _ _ Hcap). cbn [negb].
   destruct (add_aligned_u16_appends s x HI Hok Hal ltac:(lia)) as (s1 & E1 & A1).
   rewrite E1. cbn [bind]. pose proof A1 as (Ho1 & Hl1 & Hok1 & _).
   destruct (add_aligned_u16_appends s1 (N.shiftr x 16) (appended_inv _ _ _ _ A1) Hok1
@@ -75,7 +75,7 @@ Theorem add_aligned_u64_appends s x :
   Inv s -> bytes_ok (s_buf s) -> s_off s mod 8 = 0 -> s_off s / 8 + 8 <= blen (s_buf s) ->
   exists s', add_aligned_u64 s x = Some s' /\ appended s s' 64 (N.testbit x).
 Proof.
-  intros HI Hok Hal Hcap. unfold add_aligned_u64.
+  intros HI Hok Hal Hcap. unfold add_aligned_u64. rewrite (ensure_writable_true s _ _ Hcap). cbn [negb].
   destruct (add_aligned_u32_appends s x HI Hok Hal ltac:(lia)) as (s1 & E1 & A1).
   rewrite E1. cbn [bind]. pose proof A1 as (Ho1 & Hl1 & Hok1 & _).
   destruct (add_aligned_u32_appends s1 (N.shiftr x 32) (appended_inv _ _ _ _ A1) Hok1
